@@ -1,15 +1,15 @@
 SPECIFICATION Spec
 CONSTANTS
-  ReqBodyLens = {0, 3}
-  RespBodyLens = {2}
+  ReqBodyLens = {3}
+  RespBodyLens = {1}
   ReqHdrLens = {3}
   RespHdrLens = {1}
   ReqTrlLens = {0, 2}
   RespTrlLens = {0}
   ReqSWs = {1, 3}
-  ReqCWs = {1, 2}
-  RespSWs = {1, 3}
-  RespCWs = {2}
+  ReqCWs = {2}
+  RespSWs = {1}
+  RespCWs = {1}
   ReqMFs = {1, 2}
   RespMFs = {2}
   Thresh = 2
